@@ -5,6 +5,7 @@ CONSTANTS
   Classes <- ArithClasses
   LRegs <- LV
   RRegs <- RV
+  ScalarTs <- FewSTs
   OneStep = TRUE
   EmitOn = TRUE
 ACTION_CONSTRAINT Emit
